@@ -8,10 +8,12 @@ def idx(nr, nt, nsc, a, b):
     return b + nt * a if a < nsc else nsc * nt + (a - nsc) + (nr - nsc) * b
 
 
-def jobs_for(cls, nr, nt, nsc, dirbc):
+def jobs_for(cls, nr, nt, nsc, dirbc, assembly="sequential", only_lines=None):
     rules, hashes = Rules("C06"), {}
     N = nr * nt
     c = smoother.smoother_unit(cls, rules, hashes, nr, nt)
+    if assembly == "parallel":
+        c.append(smoother.parallel_assembly(cls, rules, hashes))
     cfg = smoother.CFG[cls]
     c.append("static real_t X0[%d], F0[%d], XF[%d], AXF[%d];" % (N, N, N, N))
     c.append("static void setup(void) {")
@@ -19,14 +21,19 @@ def jobs_for(cls, nr, nt, nsc, dirbc):
     c += C03.cache_setup(N, nr, nt, 1, 1)
     c.append("  DirBC_Interior_ = %d; result_size = rhs_size = x_size = temp_size = %d; verif_omp_max_threads = 1;" % (dirbc, N))
     c += smoother.allocation(cls, nr, nt, nsc, dirbc, rules)
-    c.append("  for (int i_r = 0; i_r < grid_.numberSmootherCircles(); i_r++) %s_buildAscCircleSection__impl(i_r);" % cls)
-    c.append("  for (int i_theta = 0; i_theta < grid_.ntheta(); i_theta++) %s_buildAscRadialSection__impl(i_theta);" % cls)
+    if assembly == "parallel":
+        c.append("  %s_assemble_parallel_order();   /* task order of the multi-threaded branch of buildAscMatrices */" % cls)
+    else:
+        c.append("  for (int i_r = 0; i_r < grid_.numberSmootherCircles(); i_r++) %s_buildAscCircleSection__impl(i_r);" % cls)
+        c.append("  for (int i_theta = 0; i_theta < grid_.ntheta(); i_theta++) %s_buildAscRadialSection__impl(i_theta);" % cls)
     c.append("}")
     # lines of the smoother: circles i_r in [0, nsc) start at index(i_r, 0); radial lines i_theta start at index(nsc, i_theta)
     lines = [("circle", a, idx(nr, nt, nsc, a, 0), [(a, b) for b in range(nt)]) for a in range(nsc)] + \
             [("radial", b, idx(nr, nt, nsc, nsc, b), [(a, b) for a in range(nsc, nr)]) for b in range(nt)]
     jobs = []
-    for (sweep, threads) in cfg["sweeps"]:
+    if only_lines is not None:
+        lines = [l for l in lines if (l[0], l[1]) in only_lines]
+    for (sweep, threads) in (cfg["sweeps"][:1] if assembly == "parallel" else cfg["sweeps"]):
      for (kind, li, start, nodes) in lines:
          last_colour = (kind == "radial" and li % 2 == 1)
          for mode in ([0, 1] if last_colour else [1]):
@@ -50,7 +57,7 @@ def jobs_for(cls, nr, nt, nsc, dirbc):
                      h.append("  __CPROVER_assert(result[%d] == 0, \"OBL:residual_vanishes_on_last_updated_colour[node=(%d,%d)]\");" % (idx(nr, nt, nsc, a, b), a, b))
              h.append("  __CPROVER_assert(X0[0] != X0[0], \"COVER:reached_end\");")
              h.append("}")
-             tag = "[%s.%s,%s,%s%d,nr=%d,nt=%d,nsc=%d,DirBC=%d]" % (cls, sweep, "relax" if mode == 0 else "fixedpoint", kind, li, nr, nt, nsc, dirbc)
+             tag = "[%s%s.%s,%s,%s%d,nr=%d,nt=%d,nsc=%d,DirBC=%d]" % (cls, ".parallelAssembly" if assembly == "parallel" else "", sweep, "relax" if mode == 0 else "fixedpoint", kind, li, nr, nt, nsc, dirbc)
              j = Job("C06." + tag, "\n".join(c + h), "R", unwind=max(N, 5 * nt) + 2, timeout=900,
                      bounded="grid shape fixed %dx%d split %d DirBC=%d; all real data symbolic" % (nr, nt, nsc, dirbc),
                      functions=["%s::%s" % (cls, m) for m in ("buildAscCircleSection", "buildAscRadialSection", "applyAscOrthoCircleSection",
@@ -79,6 +86,12 @@ def build_jobs(tier, seed):
         for dirbc in bcs:
             for cls in CLASSES:
                 jobs += jobs_for(cls, nr, nt, nsc, dirbc)
+    # the line matrices assembled in the task order of the multi-threaded branch of buildAscMatrices (give strategy): ntheta % 3 == 0 and == 1
+    par = [(5, 12, 2, 0, [("radial", b) for b in (0, 1, 2, 3, 4, 11)] + [("circle", 0), ("circle", 1)]), (5, 4, 2, 1, [("radial", b) for b in range(4)] + [("circle", 1)])]
+    if tier != "quick":
+        par += [(6, 8, 3, 0, [("radial", b) for b in range(8)] + [("circle", a) for a in range(3)]), (5, 12, 2, 1, [("radial", b) for b in range(12)])]
+    for (nr, nt, nsc, dirbc, ol) in par:
+        jobs += jobs_for("SmootherGive", nr, nt, nsc, dirbc, assembly="parallel", only_lines=ol)
     return jobs
 
 
